@@ -42,9 +42,14 @@ def static_audit(ctx):
         ctx.cov['writable_data_symbols'] = sorted(set(s for t, s in syms))
         for s in bad:
             ctx.violation('hidden-static-state:' + s, 'writable static data symbol `%s` (shared between compilations / VMs; allow-list: token_map, op_to_str, std::__ioinit)' % s, {'symbol': s})
-        # the two allowed arrays must never be assigned
+        # the two allowed tables must be plain arrays of strings (a lookup in an array writes nothing; a lookup with
+        # operator[] in a std::map / unordered_map inserts) and must never be assigned
         for f, name in (('Compiler/src/scan.cpp', 'token_map'), ('VM/src/program.cpp', 'op_to_str')):
             txt = open(os.path.join(vlib.REPO, f)).read()
+            if not re.search(r'(?:^|\n)\s*(?:static\s+)?(?:const\s+)?std::string\s+(?:const\s+)?' + name + r'\s*\[\s*\d*\s*\]\s*=', txt) and \
+               not re.search(r'std::array<\s*(?:const\s+)?std::string(?:_view)?\s*,[^>]*>\s*(?:const\s+)?' + name, txt) and \
+               not re.search(r'const(?:expr)?\s+(?:char\s*\*|std::string_view)\s*(?:const\s+)?' + name + r'\s*\[', txt):
+                ctx.violation('table-type-changed', 'the global table %s is no longer a plain array of strings: looking something up in it may write to process-wide state' % name, {'file': f})
             if re.search(name + r'\s*\[[^\]]+\]\s*(=[^=]|\+=|\.(assign|append|push_back|clear|swap)\b)', txt):
                 ctx.violation('table-written', 'the static table %s is written to' % name, {'file': f})
         lex = open(os.path.join(vlib.REPO, 'Compiler/src/lexer.l')).read()
@@ -145,6 +150,10 @@ def check_C18(ctx):
         ctx.stage_broken('TSan harness build', (err or '')[-400:])
     else:
         sets = good[:ctx.n(6, 16)] + [{'mainf': m, 'files': f} for (m, f, _) in bad[:ctx.n(3, 8)]]
+        # diagnostics that describe every kind of token (error messages are built from a global table)
+        for tkn in ('RUN', 'WITH', 'LOOP', 'END', '<P>', '$1', '#1', '"f"', '99', ':=', '?', 'DEFINE', 'AS', 'PRIO', 'INCLUDE'):
+            for tmpl in ('x0 := %s', 'LOOP %s DO x0 := 1 END', 'x0 := RUN f %s 1 END'):
+                sets.append({'mainf': b'm', 'files': {b'm': (tmpl % tkn).encode()}})
         req = 'MT %d %d %d %s' % (8, ctx.n(6, 40), len(sets), ' '.join(files_req(c['mainf'], c['files']) for c in sets))
         o = vlib.run_batch([tsan], [req], per_line_timeout=ctx.n(120, 600))[0]
         ctx.cov['tsan_run'] = o[:200]
